@@ -4,6 +4,10 @@ CHECKS = [
      "text": "Order obligations of both endpoint comparators (totality, asymmetry, transitivity, T0/R1/R2/R3/R5), one iteration of both builder loops against the push/pop transition function, and _add_edge of both builders against its contract are generated from /repo's AST on every run and discharged by z3 for all inputs. Not 'proof': one obligation (transitivity) is refuted on the pinned tree (known finding D4), and the composition into the tree statement rests on the bracket lemma, validated exhaustively (all laminar families within the stated grid scope) on the real builders.",
      "note": "assumed: sorted/cmp_to_key contract; bracket lemma L6 (bounded validation only); endpoint-array construction covered only by the bounded stage; integers for timestamps",
      "technique": TECH},
+    {"property_id": "C18", "category": "proof",
+     "text": "Every filter's __call__ (Iteration, Rank, TimeRange, Name via symbol table / decoded column / s_name column, GPU/CPU side with and without symbol table, MemCopy, Query/ZeroDuration, Composite in several orders) is executed symbolically from /repo's AST over a symbolic event frame; for an arbitrary (skolem) row z3 proves kept <=> documented predicate, contents / labels / order unchanged and the input not written, for all frames and all parameter values. IterationIndexFilter, constructors and whole-frame purity are covered by the bounded stage only.",
+     "note": "assumed: pandas contracts of selection / isin / comparisons / query / str.match (uninterpreted, shared by encoded and decoded paths) / dtype tags (listed in evidence.assumptions, differential-tested by the bounded stage); symbol table bijection (C11); regex semantics not interpreted",
+     "technique": TECH},
 ]
 _PENDING = "check not built yet in this round (planned, see DESIGN.md section 5); not claimed until its obligations are generated and discharged"
 NOT_APPLICABLE = [{"property_id": f"C{i:02d}", "reason": _PENDING} for i in range(1, 21) if f"C{i:02d}" not in {c["property_id"] for c in CHECKS}]
